@@ -151,7 +151,7 @@ Qed.
 
 Theorem iter_C12 : check_prop 12 e (c_trace c) (c_labels c) = true.
 Proof.
-  cbn [check_prop]. rewrite iter_C12_shape, iter_nodup, iter_C02, iter_C05. cbn [andb].
+  cbn [check_prop]. unfold c at 2. rewrite iter_C12_shape, src_panic_ok, iter_nodup, iter_C02, iter_C05. cbn [andb].
   destruct (has_skip (c_trace c) || has_panic (c_trace c)) eqn:E; [reflexivity|].
   apply iter_noloss. unfold clean. rewrite E. reflexivity.
 Qed.
